@@ -7,7 +7,6 @@ import (
 	"errors"
 	"io"
 	"os"
-	"sync"
 	"syscall"
 	"time"
 
@@ -48,7 +47,7 @@ func NoPlan() Plan { return Plan{ReadErrAt: -1, WriteErrAt: -1} }
 // Fs is one run's disk.
 type Fs struct {
 	afero.Fs
-	mu     sync.Mutex
+	mu     simrt.HMutex
 	Plans  map[string]*Plan
 	Fired  map[string]int // fault kind -> how often it bit
 	dead   bool
@@ -275,7 +274,7 @@ func (fl *File) Close() error {
 // Switch is the afero.Fs that pandora's process-wide registrations hold; its
 // backing store is swapped per run.
 type Switch struct {
-	mu  sync.Mutex
+	mu  simrt.HMutex
 	cur afero.Fs
 }
 
